@@ -571,6 +571,11 @@ def agree(c, a, b):
         tmax = (c.E if c.variant == 1 else c.E / 2) if c.model == "mb" else mu_tmax(c.E)
         if abs(a["secs"][0][1] - tmax) <= 1e-10 * tmax:
             datol = 1e-6
+    if c.model == "kn" and a["secs"] and a["secs"][0][0] == 0 and a["secs"][0][1] > 0:
+        # electron direction = unit(E d - E' d'): a difference of nearly equal momenta when T << E; the rounding of
+        # d' (1e-16) is amplified by E / p_e
+        t = a["secs"][0][1]
+        datol = max(datol, 1e-14 * c.E / math.sqrt(t * (t + 2 * EMASS)))
     for sa, sb in zip(a["secs"], b["secs"]):
         if sa[0] != sb[0] or not close(sa[1], sb[1], 1e-9, eatol) or not close(sa[2], sb[2], 1e-9, _axis_tol(c, sa[2], datol)):
             return False
@@ -739,7 +744,13 @@ def oracle(c, a):
         if pid not in ALLOWED_SEC[m] or (m == "bh" and pid != i):
             bad.append(("secondary %d has unexpected particle id %d" % (i, pid), None))
         if e < 0:
-            bad.append(("secondary %d has negative energy %.3g" % (i, e), None))
+            sig = None
+            # known finding, narrow: Bethe-Heitler pair member at the kinematic limit eps = m/E (or 1/2), ulp-level
+            # negative, with an extreme uniform (0 or >= 1 - 2^-52) among the draws consumed
+            if (m == "bh" and abs(e) <= 1e-12 * c.E
+                    and any(x == 0.0 or x >= 1 - 2.0 ** -52 for x in c.u[:a["draws"]])):
+                sig = "bh-pair-energy-negative-by-rounding-at-extreme-uniform"
+            bad.append(("secondary %d has negative energy %.3g" % (i, e), sig))
         if abs(math.sqrt(nsq(d)) - 1) > 1e-12:
             bad.append(("secondary %d direction is not a unit vector: %r" % (i, d), None))
         th = threshold(c, i, pid)
